@@ -112,6 +112,9 @@ func build(c Case) (*gen.Program, map[string]string, string) {
 	case "cflow":
 		p := gen.Replay(c.Choices, gen.Cflow(gen.CflowCfg{Budget: c.Budget, MaxDepth: c.Depth, Rich: c.Rich}))
 		return p.Prog, map[string]string{"P": c.Args[0], "Q": c.Args[1]}, "placement=" + p.Placement
+	case "dce":
+		p := gen.Replay(c.Choices, gen.Dce)
+		return p.Prog, map[string]string{"P": c.Args[0], "Q": c.Args[1]}, "placement=" + p.Placement
 	case "func":
 		return gen.Replay(c.Choices, gen.Funcs(gen.FuncCfg{Budget: c.Budget})), nil, ""
 	case "alias":
@@ -155,7 +158,7 @@ func runCase(c Case) (fails []fail, obs string) {
 	}
 	src := tg.Print(prog)
 	budget := refBudget
-	if c.Family == "cflow" || c.Family == "stmt" {
+	if c.Family == "cflow" || c.Family == "stmt" || c.Family == "dce" {
 		budget = 3000 // these families have no recursion: a run longer than this is an infinite loop
 	}
 	r := ref.Run(prog, refIn, budget)
@@ -519,6 +522,12 @@ func main() {
 			c.Choices = append([]int{}, ch...)
 			c.Args = []string{b[0], b[1]}
 			exec(c)
+		}
+	})
+	phase("dce")
+	gen.ParallelEnumerate(gen.Dce, 3, func(p gen.CflowProgram, ch []int) {
+		for _, b := range bools {
+			exec(Case{Family: "dce", Choices: append([]int{}, ch...), Args: []string{b[0], b[1]}})
 		}
 	})
 	phase("func")
